@@ -35,6 +35,13 @@ def check(repo: Repo, rep, tier):
     from .C13 import persist_unique
 
     persist_unique(repo, rep)
+    from .C03 import source_bom, line_model
+
+    source_bom(repo, rep)
+    line_model(repo, rep)
+    from .C13 import suffix_shape
+
+    suffix_shape(repo, rep)
 
 
 def _calls_of(f, cfg, cg, key):
@@ -200,6 +207,22 @@ def _fmt_degrade_in(repo: Repo, rep, f, cg):
             ok = False
         if ok:
             rep.ok("R-FMT-DEGRADE", f, hn.ast, f"{label}: raise_problem + return {text}")
+    # the input comes back unformatted only from a failure branch: a `return <input>` that is reachable without passing a handler or
+    # the exit-status test is a formatter that declines to format - `code == format_code(code)` is then trivially true, the
+    # whole-file pass does nothing and a clean file does not stay clean
+    failure_nodes = set()
+    for hn, starts, label in branches:
+        failure_nodes |= set(reach(cfg, starts))
+    if f.name == "format_code" or any(norm(c.func).endswith("format_str") for n_ in cfg.live for c in node_calls(n_)):
+        for r in [n_ for n_ in cfg.live if returns_text(n_) and n_ not in failure_nodes]:
+            rep.violation(
+                "R-FMT-DEGRADE",
+                f,
+                r.ast,
+                f"{f.qualname} returns its input unformatted on a path that is no failure of the formatter (no exception handler, no exit status): for the inputs that take this path nothing is formatted - "
+                "not the generated fragment, not the final whole-file pass - and a formatter-clean file does not stay clean",
+                construct="declines-to-format",
+            )
     # format_str inside a catch-all try
     fs = [(n, c) for n in cfg.live for c in node_calls(n) if norm(c.func).endswith("format_str")]
     for n, c in fs:
@@ -216,6 +239,29 @@ def _fmt_degrade_in(repo: Repo, rep, f, cg):
             rep.ok("R-FMT-DEGRADE", f, c, "format_str guarded by a catch-all handler")
         else:
             rep.violation("R-FMT-DEGRADE", f, c, "an exception of the formatter is not caught: a formatter crash aborts the rewrite", construct="format_str-unguarded")
+    # the import of the optional formatter: guarded by a handler that takes every ImportError (a formatter that is installed but
+    # fails while it is imported - a broken dependency, a shadowing module - raises ImportError, not its subclass ModuleNotFoundError)
+    for t in [x for x in body_nodes(f.node) if isinstance(x, ast.Try)]:
+        imps = [st for st in t.body if isinstance(st, (ast.Import, ast.ImportFrom)) and "black" in (getattr(st, "module", None) or "") + " ".join(a_.name for a_ in st.names)]
+        if not imps:
+            continue
+        types = []
+        for h in t.handlers:
+            if h.type is None:
+                types.append("*")
+            else:
+                types += [norm(x) for x in (h.type.elts if isinstance(h.type, ast.Tuple) else [h.type])]
+        if any(x in ("*", "ImportError", "Exception", "BaseException") for x in types):
+            rep.ok("R-FMT-DEGRADE", f, imps[0], "a formatter that cannot be imported degrades to the unformatted text")
+        else:
+            rep.violation(
+                "R-FMT-DEGRADE",
+                f,
+                imps[0],
+                f"the import of the formatter is guarded by `except {', '.join(types) or '<nothing>'}` only: an installed black that fails while it is imported raises a plain ImportError, "
+                "which escapes format_code - the comparison in the test raises and nothing is written, instead of unformatted but correct code plus a reported problem",
+                construct="import-handler",
+            )
     return len(handlers), len(branches), len(fs)
 
 
